@@ -132,7 +132,8 @@ Proof.
   - (* app dies *)
     injection H as <-. constructor; cbn; assumption.
   - (* move *)
-    destruct (mtx s) eqn:Em; [discriminate|]. destruct (worker s) eqn:Ew; [discriminate|]. cbn [orb] in H.
+    destruct (mtx s) eqn:Em; [discriminate|]. destruct (worker s) eqn:Ew.
+    { injection H as <-. constructor; rewrite ?Em, ?Ew; assumption. }
     injection H as <-. constructor; cbn; fin.
     + rewrite cc_map_undone. exact Hm.
     + intros Hx. apply in_map_undone in Hx. destruct Hx as [Hx _]. contradiction.
@@ -288,6 +289,21 @@ Proof.
     apply in_or_app; right; left; reflexivity.
 Qed.
 
+(* moveToOwnThread on a handler that is already asynchronous (a second configure(async=true)) is
+   idempotent: the step, when enabled, returns the very same state — backlog, pending count, stoppers
+   untouched — and inserting it anywhere in a history changes nothing *)
+Theorem move_again_is_idempotent rc s :
+  worker s = true -> (mtx s = false -> step rc s AMove = Some s) /\ (forall s', step rc s AMove = Some s' -> s' = s).
+Proof.
+  intros Hw. cbn [step]. rewrite Hw. destruct (mtx s); split.
+  - intros H; discriminate.
+  - intros s' E; discriminate.
+  - reflexivity.
+  - intros s' E. injection E as <-. reflexivity.
+Qed.
+Theorem move_again_changes_nothing rc s tr : worker s = true -> run rc s (AMove :: tr) = run rc s tr.
+Proof. intros Hw. cbn [run step]. rewrite Hw. destruct (mtx s); reflexivity. Qed.
+
 (* ------------------------------------------------------------------ concurrent stops --------- *)
 (* With the re-test after the relock: in every reachable state, whatever the number of stoppers and
    the interleaving, no stopper is in the error state, and the step that quits/waits/clears is only
@@ -350,7 +366,7 @@ Proof.
     injection H as <-. repeat split; cbn; assumption.
   - rewrite Hw in H. cbn [orb] in H. step_cases H. injection H as <-. repeat split; cbn; assumption.
   - injection H as <-. repeat split; cbn; assumption.
-  - rewrite Hw in H. rewrite orb_true_r in H. discriminate.
+  - rewrite Hw in H. destruct (mtx s); [discriminate|]. injection H as <-. repeat split; assumption.
 Qed.
 
 (* from a state with a backlog, an idle worker and no application object: the worker can never be
